@@ -76,6 +76,27 @@ def check_case(case):
         if not any(abs(got[ms] - s) < 1e-9 for s in ref[ms]):
             raise Violation("lcd-latency:" + tag, "cycle latency is not the sum of the latencies along the cycle",
                             got[ms], sorted(ref[ms]))
+    # the same kernel with blank lines inside (gaps in the line numbering): same cycles by instruction position
+    if len(case["kernel"]) >= 3:
+        tl = deps.kernel_text(case).split("\n")
+        lead = case.get("first_line", 0)
+        gaps = sorted({1 + (lead * 5 + 2 * j + len(case["kernel"])) % (len(case["kernel"]) - 1) for j in range(2)})
+        for g in reversed(gaps):
+            tl.insert(lead + g, "")
+        k2, dg2, _, _ = c03.runner().build(case, text="\n".join(tl))
+        byline = {x.line_number: i for i, x in enumerate(k2)}
+        lcd2 = guard(dg2.get_loopcarried_dependencies, what="get_loopcarried_dependencies(gaps)")
+        got2 = {}
+        for v in lcd2.values():
+            try:
+                ms = frozenset(byline[n.line_number] for n, _ in v["dependencies"])
+            except KeyError:
+                raise Violation("lcd-gaps:" + case["isa"], "a reported member line is not a line of the kernel",
+                                [n.line_number for n, _ in v["dependencies"]], sorted(byline))
+            got2[ms] = round(float(v["latency"]), 9)
+        if {k: round(v, 9) for k, v in got.items()} != got2:
+            raise Violation("lcd-gaps:" + case["isa"], "blank lines inside the kernel (line numbers with gaps) change "
+                            "the reported loop-carried dependencies", sorted(map(sorted, got2)), sorted(map(sorted, got)))
     # summary figure via the front end (needs the model file -> rebuilt from the case)
     exp_max = max(got.values()) if got else 0.0
     # full_analysis_dict reads only kernel + graph for the LCD figure
